@@ -274,8 +274,12 @@ impl Expression for Op {
                     TypeDef::boolean()
                 } else if lhs_value == Some(Value::Boolean(true)) {
                     // lhs is always "true"
-                    // keep the fallibility of RHS, but change it to a boolean
-                    self.rhs.apply_type_info(&mut state).with_kind(K::boolean())
+                    // keep the fallibility of RHS, but change it to a boolean; the operation
+                    // itself fails unless the RHS is a boolean (or null)
+                    self.rhs
+                        .apply_type_info(&mut state)
+                        .fallible_unless(K::null().or_boolean())
+                        .with_kind(K::boolean())
                 } else {
                     // unknown if lhs is true or false
                     lhs_def
